@@ -74,6 +74,7 @@ var (
 type relayItem struct {
 	remapID         uint32
 	tomb            bool
+	finished        bool // a frame that ends the call has been queued to the receiver
 	isOriginator    bool
 	call            RelayCall
 	destination     *Relayer
@@ -151,19 +152,32 @@ func (r *relayItems) Get(id uint32, stopTimeout bool) (_ relayItem, stopped bool
 }
 
 // sendIfLive queues f on ch unless the item has been entombed or deleted since
-// it was looked up. The check and the non-blocking send happen with the read
-// lock held, so that a timeout or failure, which entombs the item before it
+// it was looked up. The check and the non-blocking send happen with the lock
+// held, so that a timeout or failure, which entombs the item before it
 // writes the call's error frame, cannot slip in between: a frame is never
-// queued behind the terminal frame of its call.
-func (r *relayItems) sendIfLive(id uint32, ch chan<- *Frame, f *Frame) (queued, live bool) {
-	r.RLock()
-	defer r.RUnlock()
+// queued behind the terminal frame of its call. When f itself ends the call
+// (final), the item is marked finished in the same critical section, so that a
+// failure noticed meanwhile on the call's other connection (which entombs the
+// item before writing an error frame) does not add a second terminal frame.
+func (r *relayItems) sendIfLive(id uint32, ch chan<- *Frame, f *Frame, final bool) (queued, live bool) {
+	if final {
+		r.Lock()
+		defer r.Unlock()
+	} else {
+		r.RLock()
+		defer r.RUnlock()
+	}
 
-	if item, ok := r.items[id]; !ok || item.tomb {
+	item, ok := r.items[id]
+	if !ok || item.tomb {
 		return false, false
 	}
 	select {
 	case ch <- f:
+		if final {
+			item.finished = true
+			r.items[id] = item
+		}
 		return true, true
 	default:
 		return false, true
@@ -222,6 +236,12 @@ func (r *relayItems) Entomb(id uint32, deleteAfter time.Duration) (relayItem, bo
 	if item.tomb {
 		r.Unlock()
 		r.logger.WithFields(LogField{"id", id}).Warn("Re-entombing a tombstone.")
+		return item, false
+	}
+	if item.finished {
+		// The frame that ends this call is already on its way to the receiver and
+		// the item is about to be deleted: there is nothing left to fail.
+		r.Unlock()
 		return item, false
 	}
 	r.tombs++
@@ -356,7 +376,7 @@ func (r *Relayer) Receive(f *Frame, fType frameType) (sent bool, failureReason s
 			item.call.Failed(failMsg)
 		}
 	}
-	queued, live := items.sendIfLive(id, r.conn.sendCh, f)
+	queued, live := items.sendIfLive(id, r.conn.sendCh, f, finished)
 	if !live {
 		// The item timed out or failed while this frame was being processed; its
 		// terminal error frame is on its way, nothing may follow it.
